@@ -270,6 +270,21 @@ theorem size_gate_in_code :
     Gen.HandleMsgHashCapSites = 2 ∧
     Gen.HandleMsgBlockCapCond = "len(blocks) >= downloader.MaxBlockFetch" := by decide
 
+/-- generated facts about the two repaired places, as they stand in the working tree: every statement of
+    `handleMsg` that writes `request.Amount` is one of the two caps or the recomputation guarded by
+    `available < request.Amount` (so the amount is never enlarged after the cap — `fromNumberLast`), and
+    `GetMomentumsByHash` returns `nil, nil` for a nil momentum before it reads `momentum.Height`
+    (`hashesFromHash`, first case). -/
+theorem repaired_shape_in_code :
+    Gen.HandleMsgAmountWrites =
+      ["request.Amount > uint64(downloader.MaxHashFetch) => request.Amount = uint64(downloader.MaxHashFetch)",
+       "request.Amount > uint64(downloader.MaxHashFetch) => request.Amount = uint64(downloader.MaxHashFetch)",
+       "available := last.Height - request.Number + 1; available < request.Amount => request.Amount = available"] ∧
+    Gen.GetMomentumsByHashStmts =
+      ["momentum, err := ms.GetMomentumByHash(blockHash)", "if err != nil { return nil, err }",
+       "if momentum == nil { return nil, nil }",
+       "return ms.GetMomentumsByHeight(momentum.Height, higher, count)"] := by decide
+
 /-- the limits the statement names: 10 MiB per message, 512 hashes and 128 momentums per reply. -/
 theorem stated_limits :
     Gen.ProtocolMaxMsgSize = 10 * 1024 * 1024 ∧ Gen.MaxHashFetch = 512 ∧ Gen.MaxBlockFetch = 128 := by decide
